@@ -938,13 +938,23 @@ func c09Preload(pre []string) []int {
 				err = e0
 				break
 			}
+			// (the generator only asks for reloads that are refused: a successful in-process reload of
+			// a listening http server can block in Server.Stop of the replaced instance — guarded anyway)
+			done := make(chan struct{})
 			var ni *casket.Instance
-			ni, err = inst.Restart(input)
-			if err == nil && ni != nil {
-				inst = ni
+			var rerr error
+			go func() { ni, rerr = inst.Restart(input); close(done) }()
+			select {
+			case <-done:
+				err = rerr
+				if err == nil && ni != nil {
+					inst = ni
+				}
+				inst.ShutdownCallbacks()
+				inst.Stop()
+			case <-time.After(5 * time.Second):
+				err = fmt.Errorf("reload did not return within 5s")
 			}
-			inst.ShutdownCallbacks()
-			inst.Stop()
 		}
 		classes = append(classes, c09LoadClass(err))
 	}
@@ -1624,23 +1634,30 @@ func c09PreBodies(r *Rand) []string {
 	for k := r.Range(1, 4); k > 0; k-- {
 		pr := c09Probes[r.Intn(len(c09Probes))]
 		var body string
+		bad := 0
 		switch x := r.Intn(10); {
 		case x < 2: // a single late directive
 			body = pr.Lines[len(pr.Lines)-1]
 		case x < 5: // a full probe config
 			body = strings.Join(pr.Lines, "\n")
 		case x < 8: // misspelt directive behind / in front of valid lines
+			bad = 1
 			if r.Bool() {
 				body = strings.Join(pr.Lines, "\n") + "\n" + r.Pick(c09BadUnknown)
 			} else {
 				body = r.Pick(c09BadUnknown) + "\n" + strings.Join(pr.Lines, "\n")
 			}
 		case x < 9:
+			bad = 2
 			body = pr.Lines[0] + "\n" + r.Pick(c09BadSyntax)
 		default:
 			body = pr.Lines[0] + "\n" + r.Pick(c09BadSetup)
 		}
-		pre = append(pre, r.Pick([]string{"V:", "S:", "R:", ""})+body)
+		kind := r.Pick([]string{"V:", "S:", "R:", ""})
+		if kind == "R:" && bad == 0 { // reloads of a running site: refused ones only (see c09Preload)
+			kind = "S:"
+		}
+		pre = append(pre, kind+body)
 	}
 	return pre
 }
@@ -1796,7 +1813,7 @@ func c09Gen(r *Rand, tier string) []interface{} {
 	var out []interface{}
 	nParse, nMal, nExec, nSite, nOrderRounds, nDirs, nHist, nText := 500, 500, 900, 110, 2, 40, 250, 300
 	if tier == "thorough" {
-		nParse, nMal, nExec, nSite, nOrderRounds, nDirs, nHist, nText = 6000, 6000, 10000, 1200, 20, 400, 3000, 4000
+		nParse, nMal, nExec, nSite, nOrderRounds, nDirs, nHist, nText = 6000, 6000, 10000, 1200, 20, 400, 2500, 3000
 	}
 	out = append(out, &c09In{Kind: "dirs"})
 	// every probe once in written-canonical and once in reversed file order
